@@ -55,6 +55,7 @@ PROGRAMS = [
     "while c: a; b\nfor i in j: k",
     "if x: a = 1\nelif y: b = 2\nelse: c = 3",
     "x = a if(b) else c\ny = not(f) or (g)\nz = ((h))\nw = a if(b)else c",
+    "f(a, k=b, *c, **d)\nclass C(B, m=M, *N): pass",
 ]
 
 for _p in PROGRAMS:
